@@ -585,6 +585,19 @@ func (s *SweepingProvider) schedulePrefixNoLock(prefix bitstr.Key, justReprovide
 		// Already scheduled.
 		return
 	}
+	if !justReprovided {
+		// The keys of the subsumed regions that are still due in the current
+		// cycle weren't just reprovided, and must not wait for the next time slot
+		// of prefix, possibly a full cycle away: take over the first of their
+		// time slots.
+		if subtrie, ok := keyspace.FindSubtrie(s.schedule, prefix); ok {
+			for t := range keyspace.ValuesIter(subtrie, s.order) {
+				if s.timeUntil(t) < s.timeUntil(nextReprovideTime) {
+					nextReprovideTime = t
+				}
+			}
+		}
+	}
 	// Unschedule superstrings in schedule if any.
 	s.unscheduleSubsumedPrefixesNoLock(prefix)
 
